@@ -227,4 +227,117 @@ theorem match_notes_eq_model (ri : List Ival) (rp : List Rat) (ei : List Ival) (
         PyTR.truePairs_outer, notes_loop_eq, foldl_graphStep, pyMatching_ok]
       rfl
 
+/-! ### `precision_recall_f1_overlap` -/
+
+theorem validate_lengths {ri ei : List Ival} {rp ep : List Rat} {u : Unit}
+    (h : Transcription.validate ri (rp.map some) ei (ep.map some) = .ok u) :
+    ri.length = rp.length ∧ ei.length = ep.length := by
+  unfold Transcription.validate at h
+  cases h0 : validateIntervals ri ei with
+  | error x => rw [h0] at h; cases h
+  | ok _ =>
+    rw [h0] at h
+    by_cases h1 : ri.length = rp.length
+    · by_cases h2 : ei.length = ep.length
+      · exact ⟨h1, h2⟩
+      · exfalso
+        simp [raiseIf, h1, h2, bind, Except.bind] at h
+    · exfalso
+      simp [raiseIf, h1, bind, Except.bind] at h
+
+/-- **`precision_recall_f1_overlap` as translated = the hand model** (`precisionRecallF1Overlap`), for ALL inputs:
+    validation, the empty-input `(0, 0, 0, 0)`, `match_notes`, P / R / F and the average overlap ratio of the matching -/
+theorem precision_recall_f1_overlap_eq_model (ri : List Ival) (rp : List Rat) (ei : List Ival) (ep : List Rat)
+    (ot pt : Rat) (ratio : Option Rat) (mt : Rat) (strict : Bool) (beta : Rat) :
+    Mir.Gen.transcription.precision_recall_f1_overlap ri rp ei ep ot pt ratio mt strict beta =
+      precisionRecallF1Overlap ri rp ei ep ⟨ot, pt, ratio, mt, strict⟩ beta := by
+  unfold Mir.Gen.transcription.precision_recall_f1_overlap precisionRecallF1Overlap PyTR.validate
+  cases hv : Transcription.validate ri (rp.map some) ei (ep.map some) with
+  | error x => rfl
+  | ok u =>
+    obtain ⟨hr, he⟩ := validate_lengths hv
+    simp only [ok_bind, PyM.len, decide_eq_true_eq, Bool.or_eq_true, List.length_eq_zero_iff, List.isEmpty_iff]
+    by_cases hE : rp = [] ∨ ep = []
+    · rw [if_pos hE, if_pos hE]
+    · rw [if_neg hE, if_neg hE]
+      have hr0 : rp ≠ [] := fun h => hE (Or.inl h)
+      have he0 : ep ≠ [] := fun h => hE (Or.inr h)
+      rw [match_notes_eq_model ri rp ei ep ot pt ratio mt strict hr he]
+      cases hm : matchNotes ri rp ei ep ⟨ot, pt, ratio, mt, strict⟩ with
+      | error x => rfl
+      | ok m =>
+        simp only [ok_bind, Mir.C04.GenGlue.divF_ok (lenq_ne_zero hr0), Mir.C04.GenGlue.divF_ok (lenq_ne_zero he0),
+          Mir.C04.GenGlue.f_measure_hits _ _ _ (length_ne_zero hr0) (length_ne_zero he0), PyTR.average_overlap_ratio]
+        cases averageOverlapRatio ri ei m <;> rfl
+
+/-! ### the C05 statements on the translated definitions -/
+
+/-- **every pair returned by the translated `match_notes` satisfies all enabled criteria** (onset, pitch and — unless
+    `offset_ratio is None` — offset), no note is used twice, and no valid pairing is larger -/
+theorem gen_match_notes_sound (ri : List Ival) (rp : List Rat) (ei : List Ival) (ep : List Rat) (ot pt : Rat)
+    (ratio : Option Rat) (mt : Rat) (strict : Bool) (hr : ri.length = rp.length) (he : ei.length = ep.length)
+    (M : List Edge) (h : Mir.Gen.transcription.match_notes ri rp ei ep ot pt ratio mt strict = .ok M) :
+    (∀ ij ∈ M, ∃ r e, (ri.zip rp)[ij.1]? = some r ∧ (ei.zip ep)[ij.2]? = some e ∧
+        onsetHit ot strict r.1 e.1 = true ∧ pitchHit pt strict r.2 e.2 = true ∧
+        ∀ ρ, ratio = some ρ → offsetHit ρ mt strict r.1 e.1 = true) ∧
+    (M.map Prod.fst).Nodup ∧ (M.map Prod.snd).Nodup ∧
+    ∀ M', ValidMatching (hitGraph (noteHit ⟨ot, pt, ratio, mt, strict⟩) (ri.zip rp) (ei.zip ep)) M' →
+      M'.length ≤ M.length := by
+  rw [match_notes_eq_model ri rp ei ep ot pt ratio mt strict hr he] at h
+  obtain ⟨hv, hs⟩ := Mir.C05.Transcription.model_match_notes_accepted ri ei rp ep _ M h
+  exact Mir.C05.Transcription.accepted_note_pairing_sound ⟨ot, pt, ratio, mt, strict⟩ _ _ M hv hs
+
+/-- the same for the translated `match_note_onsets`: every pair is within the (rounded) onset tolerance, one-to-one, maximum -/
+theorem gen_match_note_onsets_sound (ri ei : List Ival) (tol : Rat) (strict : Bool) (M : List Edge)
+    (h : Mir.Gen.transcription.match_note_onsets ri ei tol strict = .ok M) :
+    (∀ ij ∈ M, ∃ r e, ri[ij.1]? = some r ∧ ei[ij.2]? = some e ∧ onsetHit tol strict r e = true) ∧
+    (M.map Prod.fst).Nodup ∧ (M.map Prod.snd).Nodup ∧
+    ∀ M', ValidMatching (hitGraph (onsetHit tol strict) ri ei) M' → M'.length ≤ M.length := by
+  rw [match_note_onsets_eq_model, matchNoteOnsets, pyMatching_ok] at h
+  injection h with h
+  subst h
+  have hval : ValidMatching (hitGraph (onsetHit tol strict) ri ei)
+      (sortPairs (hkMatch (buildGraph (hitGraph (onsetHit tol strict) ri ei)))) :=
+    HK.validMatching_perm (HK.hkMatch_buildGraph_valid _) (HK.sortPairs_perm _)
+  have hlen : (sortPairs (hkMatch (buildGraph (hitGraph (onsetHit tol strict) ri ei)))).length =
+      maxMatchSize (hitGraph (onsetHit tol strict) ri ei) := by
+    rw [(HK.sortPairs_perm _).length_eq, HK.hkMatch_buildGraph_length]
+  exact Mir.C05.Transcription.accepted_pairing_sound _ ri ei _ ((validB_iff _ _).2 hval) hlen
+
+/-- … and for the translated `match_note_offsets` -/
+theorem gen_match_note_offsets_sound (ri ei : List Ival) (ratio minTol : Rat) (strict : Bool) (M : List Edge)
+    (h : Mir.Gen.transcription.match_note_offsets ri ei ratio minTol strict = .ok M) :
+    (∀ ij ∈ M, ∃ r e, ri[ij.1]? = some r ∧ ei[ij.2]? = some e ∧ offsetHit ratio minTol strict r e = true) ∧
+    (M.map Prod.fst).Nodup ∧ (M.map Prod.snd).Nodup ∧
+    ∀ M', ValidMatching (hitGraph (offsetHit ratio minTol strict) ri ei) M' → M'.length ≤ M.length := by
+  rw [match_note_offsets_eq_model, matchNoteOffsets] at h
+  cases hv : validateIntervals1 ri with
+  | error x => rw [hv] at h; cases h
+  | ok u =>
+    rw [hv, pyMatching_ok] at h
+    injection h with h
+    subst h
+    have hval : ValidMatching (hitGraph (offsetHit ratio minTol strict) ri ei)
+        (sortPairs (hkMatch (buildGraph (hitGraph (offsetHit ratio minTol strict) ri ei)))) :=
+      HK.validMatching_perm (HK.hkMatch_buildGraph_valid _) (HK.sortPairs_perm _)
+    have hlen : (sortPairs (hkMatch (buildGraph (hitGraph (offsetHit ratio minTol strict) ri ei)))).length =
+        maxMatchSize (hitGraph (offsetHit ratio minTol strict) ri ei) := by
+      rw [(HK.sortPairs_perm _).length_eq, HK.hkMatch_buildGraph_length]
+    exact Mir.C05.Transcription.accepted_pairing_sound _ ri ei _ ((validB_iff _ _).2 hval) hlen
+
+/-! ### non-vacuity -/
+
+/-- two estimated notes compete for one reference note: the translated `match_notes` returns (never raises without an
+    offset criterion), and whatever it returns uses the reference note at most once -/
+example : ∃ M, Mir.Gen.transcription.match_notes [(0, 1)] [60] [(1 / 32, 1), (1 / 16, 1)] [60, 60]
+    (1 / 20) 50 none (1 / 20) false = .ok M ∧ (M.map Prod.fst).Nodup := by
+  have h : ∃ M, Mir.Gen.transcription.match_notes [(0, 1)] [60] [(1 / 32, 1), (1 / 16, 1)] [60, 60] (1 / 20) 50 none
+      (1 / 20) false = .ok M := by
+    rw [match_notes_eq_model _ _ _ _ _ _ _ _ _ rfl rfl]
+    unfold matchNotes durationsCheck
+    simp only [Option.isSome_none, Bool.false_eq_true, if_false, ok_bind, pyMatching_ok]
+    exact ⟨_, rfl⟩
+  obtain ⟨M, hM⟩ := h
+  exact ⟨M, hM, (gen_match_notes_sound _ _ _ _ _ _ _ _ _ rfl rfl M hM).2.1⟩
+
 end Mir.C05.GenTr
